@@ -949,6 +949,13 @@ pub fn run_main(id: &str, tier: Tier) -> i32 {
     }
 
     // 4. outcome
+    if violation.is_none() && error.is_none() {
+        let unseen: Vec<&str> = prop.expected_labels().into_iter().filter(|l| !ev.labels.contains_key(*l)).collect();
+        ev.extra.insert("labels_expected_but_unseen".into(), json!(unseen));
+        for l in &unseen {
+            println!("WARNING: generator health: no case with label {:?} was produced in this run", l);
+        }
+    }
     if inner > 0 {
         ev.extra.insert("inner_evaluations".into(), json!(inner));
         ev.extra.insert("inner_evaluations_note".into(), json!("oracle evaluations performed inside cases (e.g. every fault applied to one generated message); not included in 'evaluations'"));
